@@ -82,6 +82,8 @@ def build(eng, pattern, folders, opts, sym, names=None):
                   coder_ids=[b"\x21", b"\x03\x01\x01"])
     if opts.get("packcrc"):
         layout["packcrc"] = True
+        if opts.get("packcrc_defined"):
+            layout["packcrc_defined"] = list(opts["packcrc_defined"])   # digests of the packed streams only partly defined
         layout["packcrcs"] = [eng.sym_int("packcrc%d" % j, 32) for j in range(nf)]
         for c, p in zip(layout["packcrcs"], packs):
             eng.assume(eng.range_cond(c, 32))
@@ -109,6 +111,7 @@ def shapes(tier, max_entries=None):
         ("ff", [2], {"dummy": 200}),          # kDummy whose size needs a two-byte NUMBER
         ("fdf", [2], {"attrs": "none"}),      # no attribute property at all: kinds come from the empty-stream vectors
         ("ff", [1, 1], {"crc_at": "folder", "omit_substreams": True}),   # SubStreamsInfo absent
+        ("ff", [1, 1], {"packcrc": True, "packcrc_defined": [False, True]}),   # packed-stream digests only partly defined
         ("fdf", [1, 0, 1], {}),   # a folder without any substream (py7zr's own append of a lone directory leaves one)
         ("d", [], {}),
         ("", [], {}),
